@@ -626,6 +626,13 @@ def gen_versions(seed, tier, focus):
         for j in range(ch.randint(F, "nmut", 1, 2 * cfg["n"])):
             muts.append([ch.randrange(F, ("srv", j), cfg["nservers"]), ch.randrange(F, ("sh", j), cfg["n"]), ch.pick(F, ("kind", j), MUT_KINDS),
                          ch.randrange(F, ("p1", j), 1 << 30), ch.randrange(F, ("p2", j), 1 << 30), ch.randrange(F, ("oldv", j), 8)])
+        if ch.chance(F, "coordinated", 0.35):
+            # a coordinated forgery: the same signed-header field rewritten to the same value on many shares, so that the
+            # doctored shares agree with each other (k of them form a 'version' nobody signed); some shares stay genuine
+            kind = ch.pick(F, "co-kind", ["salt", "salt", "datalen", "datalen", "segsize", "k", "n", "seq+1", "seq-1", "root", "offset", "splice"])
+            p1, p2, oldv = ch.randrange(F, "co-p1", 1 << 30), ch.randrange(F, "co-p2", 1 << 30), ch.randrange(F, "co-oldv", 8)
+            keep = set(ch.sample(F, "co-keep", range(cfg["n"]), ch.randint(F, "co-nkeep", 0, max(0, cfg["n"] - cfg["k"]))))
+            muts = muts[:ch.randint(F, "co-others", 0, 2)] + [[-1, sh, kind, p1, p2, oldv] for sh in range(cfg["n"]) if sh not in keep]
     else:
         # stale shares of older versions left / replayed on chosen servers
         for j in range(ch.randint(F, "nstale", 0, cfg["n"] + 2)):
@@ -799,7 +806,13 @@ def exec_versions(case):
             return finish(g, viol, probes, case, props)
         newest_v = max(published, key=lambda v: v[1])
         # ---- adversary / stale shares
+        expanded = []
         for (sidx, shnum, kind, p1, p2, oldv) in case.get("muts", []):
+            if sidx == -1:      # every server that holds this share number
+                expanded += [(i, shnum, kind, p1, p2, oldv) for i, s_ in enumerate(g.servers) if shnum in s_.shares_of(si)]
+            else:
+                expanded.append((sidx, shnum, kind, p1, p2, oldv))
+        for (sidx, shnum, kind, p1, p2, oldv) in expanded:
             if sidx >= len(g.servers):
                 continue
             srv = g.servers[sidx]
